@@ -68,7 +68,44 @@ def workloads(sid):
     return W
 
 
+def gen_workload(rng, idx):
+    """a generated workload: random schema, text and setter sequence; the fault window opens at init, parse or the setters"""
+    from vlib import gen as G
+    from checks import c05
+    so = G.SchemaOpts(keystrval=True, nodefault=True, funcs=True, depth=2, maxopts=4)
+    decls = G.gen_schema(rng, so)
+    comments = rng.random() < 0.5
+    toks = G.gen_text(rng, decls, fancy=False)
+    return {'decls': [d.to_json() for d in decls], 'flags': F_COMMENTS if comments else 0, 'text': G.render(toks),
+            'ops': c05.gen_ops(rng, decls, comments), 'window': rng.choice(['init', 'parse', 'ops'])}
+
+
+def gen_script(spec):
+    g = spec['gen']
+    decls = [D.from_json(j) for j in g['decls']]
+    lines, sid = schema.emit_schema(decls)
+    oom = 'oomat %d' % spec['k']
+    L = list(lines)
+    if g['window'] == 'init':
+        L.append(oom)
+    L.append('init 0 %d %d' % (sid, g['flags']))
+    if g['window'] == 'parse':
+        L.append(oom)
+    L.append('parse_buf 0 %s' % hx(g['text']))
+    if g['window'] == 'ops':
+        L.append(oom)
+    L += g['ops']
+    L.append('print 0')
+    L.append('oomstat trace' if spec['k'] == 0 else 'oomstat')
+    L.append('oomat 0')
+    L.append('note after')
+    L += ['dump 0', 'print 0']
+    return '\n'.join(L)
+
+
 def script(spec):
+    if spec.get('gen'):
+        return gen_script(spec)
     lines, sid = schema.emit_schema(DECLS)
     L = ['mkdir %s' % hx('spdir')]
     for name, content in FILES.items():
@@ -183,8 +220,32 @@ def run(tier, seed, bindirs):
         ref[w] = {'rcs': [(x.get('op'), x.get('rc')) for x in evs if x.get('ev') == 'r'], 'looks': [x.get('pos') for x in evs if x.get('ev') == 'look'],
                   'paths': [x.get('v') for x in evs if x.get('ev') == 'path'],
                   'dumps': [json.dumps(x['tree'], sort_keys=True) for x in evs if x.get('ev') == 'dump']}
+    # generated workloads (random schema / text / setter sequence), every k of each
+    rng = core.seeded_rng(seed, 'c18')
+    ngen = 25 if tier == 'quick' else 800
+    made = 0
+    tries = 0
+    while made < ngen and tries < ngen * 4:
+        tries += 1
+        g = gen_workload(rng, tries)
+        w = 'gen%d' % tries
+        out = core.run_batch(bindirs['asan'], [(0, script({'w': w, 'k': 0, 'gen': g}))])
+        evs, death = out[0]
+        if death is not None:
+            continue
+        oom = [e for e in evs if e.get('ev') == 'oom']
+        end = [e for e in evs if e.get('ev') == 'endcase']
+        if not oom or not end or end[0]['live'] or not oom[0]['trace'] or len(oom[0]['trace']) > 400:
+            continue
+        made += 1
+        counts[w] = len(oom[0]['trace'])
+        ref[w] = {'dumps': [json.dumps(x['tree'], sort_keys=True) for x in evs if x.get('ev') == 'dump']}
+        for k, (func, line, kind) in enumerate(oom[0]['trace'], 1):
+            specs.append({'w': w, 'k': k, 'site': site_name(ords, func, line, kind), 'gen': g})
     res = core.explore('checks.c18', specs, bindirs, chunk=30, opts={'solo_timeout': 60, 'ref': ref})
     return core.finish(PROP, tier, seed, 'fault_enumeration', res, RULE % len(counts), t0, floor=500, exhaustive=True,
                        assumptions=['only allocation requests issued from confuse.c are failed (the property excludes scanner-internal allocations)',
                                     'one failure per run; later requests succeed'],
-                       more={'allocations_per_workload': counts})
+                       more={'allocations_per_workload': {k: v for k, v in counts.items() if not k.startswith('gen')},
+                             'generated_workloads': len([k for k in counts if k.startswith('gen')]),
+                             'generated_workload_allocations': sum(v for k, v in counts.items() if k.startswith('gen'))})
